@@ -50,6 +50,9 @@ def one(e, base):
     elif e.get('generator') == 'alias-switch':
         from alias_switch import main as aliassw
         aliassw(d)
+    elif e.get('generator') == 'py-temps':
+        from py_temps import main as pytemps
+        pytemps(d)
     elif e.get('generator') == 'insert-noops':
         from insert_noops import main as noops
         noops(d)
